@@ -546,6 +546,11 @@ fn c05_oracle(obs: &Obs, cx: &Cx) -> CheckResult {
   for h in 0..=stop as u32 {
     let in_block: Vec<&ord::verif::InscriptionEntry> = dump.entries.iter().map(|(_, e)| e).filter(|e| e.height == h).collect();
     running += in_block.len() as u32;
+    // no per-height counter is recorded below the first inscription height
+    // (as on mainnet below 767430)
+    if h < obs.model.first_inscription_height {
+      continue;
+    }
     if last.get(&h).copied() != Some(running) {
       return cx.fail(Fail::new(
         "c05|height-counter",
